@@ -118,3 +118,524 @@ Example C05_cycle :
   let vars := [(KS (of_string "b"), Leaf (SStr (of_string "$c"))); (KS (of_string "c"), Leaf (SStr (of_string "$b")))] in
   resolve_reference vars (of_string "$b") = RNone /\ resolve_reference vars (of_string "$c") = RNone.
 Proof. vm_compute. split; reflexivity. Qed.
+
+(* ================================================================================================ *)
+(* Expressions: the evaluator, the loop, flat documents                                             *)
+(* ================================================================================================ *)
+From Coq Require Import Permutation.
+From DictIO Require Import KeyPath SDict Layout Lexer TokParser Reader Eval EvalSpec FlatSpec ArithProofs EvalProofs.
+
+(* ---- 1. the evaluator means arithmetic --------------------------------------------------------------- *)
+(* [render_in rho g a]: the expression a written with the blanks g, every reference replaced by the decimal text of
+   its (possibly negative) value; eval of that text is the arithmetic value *)
+Theorem C05_pyeval_arith : forall (g : nat -> str) (rho : str -> option Z) (env : str -> Z) (a : aexp),
+  blank_fn g -> (forall x, In x (avars a) -> rho x = Some (env x)) ->
+  pyeval (render_in rho g a) = EvInt (aeval env a).
+Proof. exact pyeval_render_in. Qed.
+Print Assumptions C05_pyeval_arith.
+
+Definition ex_rv (s : string) : aexp := AVar (of_string s).
+(* 2 * ($a + 3) - -($ab * 10)  with a = -4, ab = 7; two blanks (a space and a tab) in front of every odd token *)
+Definition ex_a : aexp :=
+  ASub (AMul (ANum 2) (AAdd (ex_rv "a") (ANum 3))) (ANeg (APar (AMul (ex_rv "ab") (ANum 10)))).
+Definition ex_rho : str -> option Z := fun x =>
+  if str_eqb x (of_string "a") then Some (-4)%Z else if str_eqb x (of_string "ab") then Some 7%Z else None.
+Definition ex_g : nat -> str := fun i => if Nat.even i then [] else [c_sp; c_tab].
+
+Example C05_pyeval_arith_nonvacuous :
+  let env := fun x => match ex_rho x with Some v => v | None => 0%Z end in
+  blank_fn ex_g /\ (forall x, In x (avars ex_a) -> ex_rho x = Some (env x)) /\
+  render g_tight ex_a = of_string "2*($a+3)--($ab*10)" /\
+  render_in ex_rho g_tight ex_a = of_string "2*(-4+3)--(7*10)" /\
+  pyeval (render_in ex_rho g_tight ex_a) = EvInt (aeval env ex_a) /\
+  pyeval (render_in ex_rho ex_g ex_a) = EvInt (aeval env ex_a) /\
+  aeval env ex_a = 68%Z.
+Proof.
+  intro env.
+  assert (H1 : blank_fn ex_g) by (intro i; unfold ex_g; destruct (Nat.even i); reflexivity).
+  assert (H0 : blank_fn g_tight) by (intro i; reflexivity).
+  assert (H2 : forall x, In x (avars ex_a) -> ex_rho x = Some (env x)).
+  { intros x Hx. unfold ex_a, ex_rv in Hx. cbn [avars app In] in Hx.
+    destruct Hx as [Hx|[Hx|[]]]; subst x; reflexivity. }
+  refine (conj H1 (conj H2 (conj _ (conj _ (conj (C05_pyeval_arith g_tight ex_rho env ex_a H0 H2)
+                                                 (conj (C05_pyeval_arith ex_g ex_rho env ex_a H1 H2) _)))))).
+  - vm_compute. reflexivity.
+  - vm_compute. reflexivity.
+  - vm_compute. reflexivity.
+Qed.
+
+(* without references *)
+Theorem C05_pyeval_arith_closed : forall g env a, blank_fn g -> avars a = [] -> pyeval (render g a) = EvInt (aeval env a).
+Proof. exact pyeval_render_closed. Qed.
+Print Assumptions C05_pyeval_arith_closed.
+
+Example C05_pyeval_arith_closed_nonvacuous :
+  let a := AMul (ASub (ANum 1) (ANum 12)) (APos (ANeg (ANum 3))) in
+  blank_fn g_spaced /\ avars a = [] /\ render g_spaced a = of_string "( 1 - 12 ) * + - 3 " /\
+  pyeval (render g_spaced a) = EvInt 33.
+Proof.
+  intro a. assert (H1 : blank_fn g_spaced) by (intro i; destruct i; reflexivity).
+  assert (H2 : avars a = []) by reflexivity.
+  refine (conj H1 (conj H2 (conj _ (C05_pyeval_arith_closed g_spaced (fun _ => 0%Z) a H1 H2)))).
+  vm_compute. reflexivity.
+Qed.
+
+(* the evaluator never stops for lack of fuel: [pyevalG d1 d2 k] is pyeval with d1 more fuel for the lexer, d2 more
+   for the parser and k more for each of its inner loops (peG is pe with that extra inner fuel) *)
+Theorem C05_pyeval_total : forall d1 d2 k s, pyevalG d1 d2 k s = pyeval s.
+Proof. exact pyeval_total. Qed.
+Print Assumptions C05_pyeval_total.
+
+Example C05_pyeval_total_nonvacuous :
+  pyevalG 3 5 2 (of_string "1 + 2 * (3 - -4)") = EvInt 15 /\ pyevalG 0 0 0 (of_string "1 +") = EvSyntax /\
+  pyevalG 7 0 1 (of_string "2 ** 3") = EvOutside.
+Proof. rewrite !C05_pyeval_total. vm_compute. repeat split; reflexivity. Qed.
+
+(* ---- 2. the loop ---------------------------------------------------------------------------------------- *)
+(* more fuel than (unresolved + 1) changes nothing, and the answer is the one of the fuel-free loop [loop_rel] *)
+Theorem C05_loop_terminates : forall f s resolved u, (S u <= f)%nat ->
+  eval_loop f s resolved u = eval_loop (S u) s resolved u /\ loop_rel s resolved u (eval_loop f s resolved u).
+Proof. exact loop_terminates. Qed.
+Print Assumptions C05_loop_terminates.
+
+(* an exception that eval_expressions answers -- E_Fuel included -- was raised by an insert_literal call *)
+Theorem C05_loop_raise : forall s e, eval_expressions s = Some (Raise e) ->
+  exists fuel ph v d, insert_literal fuel ph v d = Raise e.
+Proof. exact eval_expressions_raise. Qed.
+Print Assumptions C05_loop_raise.
+
+(* c = "$ab * ( $a - 5 )"  a = 3  ab = "$a+2*$a"  e = "- $c - $ab"  n = -4  m = "$n*$n" *)
+Definition ex_doc : fdoc :=
+  [ (of_string "c", FExp 1 g_spaced (AMul (ex_rv "ab") (APar (ASub (ex_rv "a") (ANum 5)))));
+    (of_string "a", FInt 3);
+    (of_string "ab", FExp 2 g_tight (AAdd (ex_rv "a") (AMul (ANum 2) (ex_rv "a"))));
+    (of_string "e", FExp 3 g_spaced (ASub (ANeg (ex_rv "c")) (ex_rv "ab")));
+    (of_string "n", FInt (-4));
+    (of_string "m", FExp 4 g_tight (AMul (ex_rv "n") (ex_rv "n"))) ].
+(* ... and  u = "$zz + $a"  with zz undeclared *)
+Definition ex_doc_u : fdoc := ex_doc ++ [ (of_string "u", FExp 5 g_spaced (AAdd (ex_rv "zz") (ex_rv "a"))) ].
+
+Example C05_loop_terminates_nonvacuous :
+  let s := flat_sdict ex_doc_u [] [] [] in
+  exists resolved u s',
+    resolve_all s = Some (resolved, u) /\ (S u <= 40)%nat /\
+    eval_loop 40 s resolved u = eval_loop (S u) s resolved u /\ eval_loop (S u) s resolved u = Some (Ok s') /\
+    length (sd_expr s) = 5%nat /\ length (sd_expr s') = 1%nat.
+Proof.
+  intro s. destruct (resolve_all s) as [[resolved u]|] eqn:Er; [|vm_compute in Er; discriminate].
+  assert (Hu : u = 3%nat) by (vm_compute in Er; inversion Er; reflexivity).
+  assert (Hle : (S u <= 40)%nat) by (rewrite Hu; repeat constructor).
+  destruct (eval_loop (S u) s resolved u) as [[s'|e]|] eqn:El.
+  - exists resolved, u, s'. split; [first [exact Er | reflexivity]|]. split; [exact Hle|].
+    split; [apply (C05_loop_terminates 40 s resolved u Hle)|]. split; [first [exact El | reflexivity]|].
+    split; [vm_compute; reflexivity|].
+    vm_compute in Er. inversion Er; subst resolved u. vm_compute in El. inversion El; subst s'. vm_compute. reflexivity.
+  - vm_compute in Er. inversion Er; subst resolved u. vm_compute in El. discriminate.
+  - vm_compute in Er. inversion Er; subst resolved u. vm_compute in El. discriminate.
+Qed.
+
+(* why C05_loop_raise is stated that way: an unresolvable expression that mentions its own placeholder makes the
+   write-back loop of insert_literal run for ever (the model answers E_Fuel) *)
+Example C05_loop_raise_nonvacuous :
+  let s := mkSD [(KS (of_string "a"), Leaf (SStr (ph_of 0)))] [] [] []
+                [(0%N, (of_string "$EXPRESSION000000 + 1", ph_of 0))] in
+  eval_expressions s = Some (Raise E_Fuel) /\ exists fuel ph v d, insert_literal fuel ph v d = Raise E_Fuel.
+Proof.
+  intro s. assert (H : eval_expressions s = Some (Raise E_Fuel)) by (vm_compute; reflexivity).
+  exact (conj H (C05_loop_raise s E_Fuel H)).
+Qed.
+
+(* ---- 3. references that cannot be resolved ------------------------------------------------------------- *)
+(* every pending expression has a dollar sign and refers to undeclared names only: the result is the input with every
+   placeholder overwritten by the original text of its expression (back_insert of the input itself) *)
+Theorem C05_unresolved_kept : forall s,
+  NoDup (map fst (sd_expr s)) ->
+  Forall (fun e => has_char c_dollar (fst (snd e)) = true) (sd_expr s) ->
+  Forall (undeclared_in s) (all_refs (sd_expr s)) ->
+  eval_expressions s = Some (back_insert s).
+Proof. exact unresolved_kept_all. Qed.
+Print Assumptions C05_unresolved_kept.
+
+(* one pending expression: [inserted d .. ph v] is the data d with the placeholder ph overwritten by v *)
+Theorem C05_unresolved_kept_one : forall d lc bc inc key e ph,
+  has_char c_dollar e = true ->
+  Forall (fun r => alookup (KS (ref_name r)) (variables_of (mkSD d lc bc inc [(key, (e, ph))])) = None) (expr_refs_of e) ->
+  eval_expressions (mkSD d lc bc inc [(key, (e, ph))]) =
+  Some (match insert_literal (S (count_leaves (Dict d))) ph (Leaf (SStr e)) (Dict d) with
+        | Ok (Dict d') => Ok (mkSD d' lc bc inc [])
+        | Ok _ => Ok (mkSD d lc bc inc [])
+        | Raise er => Raise er
+        end).
+Proof. exact unresolved_kept_one. Qed.
+Print Assumptions C05_unresolved_kept_one.
+
+(* nested data, two expressions, references to undeclared names, to a name that exists only as a list index, and an
+   indexed one; a self reference is "undeclared" as well (variables_of drops the circular entry) *)
+Example C05_unresolved_kept_nonvacuous :
+  let d := [(KS (of_string "a"), Leaf (SStr (ph_of 0)));
+            (KS (of_string "sub"), Dict [(KS (of_string "b"), Leaf (SStr (ph_of 1))); (KS (of_string "k"), Leaf (SInt 1))]);
+            (KS (of_string "l"), Lst [Leaf (SInt 5)])] in
+  let s := mkSD d [] [] [] [(0%N, (of_string "$zz + $a * 2", ph_of 0)); (1%N, (of_string "$yy[0]", ph_of 1))] in
+  NoDup (map fst (sd_expr s)) /\
+  Forall (fun e => has_char c_dollar (fst (snd e)) = true) (sd_expr s) /\
+  Forall (undeclared_in s) (all_refs (sd_expr s)) /\
+  eval_expressions s = Some (back_insert s) /\
+  back_insert s = Ok (mkSD [(KS (of_string "a"), Leaf (SStr (of_string "$zz + $a * 2")));
+                            (KS (of_string "sub"), Dict [(KS (of_string "b"), Leaf (SStr (of_string "$yy[0]")));
+                                                         (KS (of_string "k"), Leaf (SInt 1))]);
+                            (KS (of_string "l"), Lst [Leaf (SInt 5)])] [] [] [] []).
+Proof.
+  intros d s.
+  assert (H1 : NoDup (map fst (sd_expr s))).
+  { cbn. constructor; [intros [H|[]]; discriminate H|]. constructor; [intros []|constructor]. }
+  assert (H2 : Forall (fun e => has_char c_dollar (fst (snd e)) = true) (sd_expr s)).
+  { cbn [s sd_expr]. repeat (constructor; [vm_compute; reflexivity|]). constructor. }
+  assert (H3 : Forall (undeclared_in s) (all_refs (sd_expr s))).
+  { assert (E : all_refs (sd_expr s) = [of_string "$zz"; of_string "$a"; of_string "$yy[0]"]) by (vm_compute; reflexivity).
+    rewrite E. repeat (constructor; [vm_compute; reflexivity|]). constructor. }
+  refine (conj H1 (conj H2 (conj H3 (conj (C05_unresolved_kept s H1 H2 H3) _)))).
+  vm_compute. reflexivity.
+Qed.
+
+(* ---- a single reference / a single expression in arbitrary data -------------------------------------------- *)
+(* a plain (possibly indexed) reference takes the value -- of whatever type -- the reference resolves to *)
+Theorem C05_plain_reference : forall d lc bc inc key e ph resolved u t,
+  resolve_all (mkSD d lc bc inc [(key, (e, ph))]) = Some (resolved, u) ->
+  is_plain_reference (strip e) = true ->
+  rlookup (strip e) resolved = Some t ->
+  eval_expressions (mkSD d lc bc inc [(key, (e, ph))]) = Some (inserted d lc bc inc ph t).
+Proof. exact plain_reference_one. Qed.
+Print Assumptions C05_plain_reference.
+
+Example C05_plain_reference_nonvacuous :
+  let d := [(KS (of_string "x"), Lst [Leaf (SInt 5); Lst [Leaf (SStr (of_string "six")); Leaf (SBool true)]]);
+            (KS (of_string "sub"), Dict [(KS (of_string "b"), Leaf (SStr (ph_of 3)))])] in
+  let e := of_string " $x[1] " in
+  let t := Lst [Leaf (SStr (of_string "six")); Leaf (SBool true)] in
+  let resolved := [(of_string "$x[1]", t)] in
+  resolve_all (mkSD d [] [] [] [(3%N, (e, ph_of 3))]) = Some (resolved, 0%nat) /\
+  is_plain_reference (strip e) = true /\ rlookup (strip e) resolved = Some t /\
+  eval_expressions (mkSD d [] [] [] [(3%N, (e, ph_of 3))]) = Some (inserted d [] [] [] (ph_of 3) t) /\
+  inserted d [] [] [] (ph_of 3) t =
+    Ok (mkSD [(KS (of_string "x"), Lst [Leaf (SInt 5); Lst [Leaf (SStr (of_string "six")); Leaf (SBool true)]]);
+              (KS (of_string "sub"), Dict [(KS (of_string "b"), t)])] [] [] [] []).
+Proof.
+  intros d e t resolved.
+  assert (H1 : resolve_all (mkSD d [] [] [] [(3%N, (e, ph_of 3))]) = Some (resolved, 0%nat)) by (vm_compute; reflexivity).
+  assert (H2 : is_plain_reference (strip e) = true) by (vm_compute; reflexivity).
+  assert (H3 : rlookup (strip e) resolved = Some t) by (vm_compute; reflexivity).
+  refine (conj H1 (conj H2 (conj H3 (conj (C05_plain_reference d [] [] [] 3%N e (ph_of 3) resolved 0%nat t H1 H2 H3) _)))).
+  vm_compute. reflexivity.
+Qed.
+
+(* an expression whose references are all resolved takes the value of the substituted text *)
+Theorem C05_expression_value : forall d lc bc inc key e ph resolved u z,
+  resolve_all (mkSD d lc bc inc [(key, (e, ph))]) = Some (resolved, u) ->
+  (if is_plain_reference (strip e) then rlookup (strip e) resolved else None) = None ->
+  has_char c_dollar (substitute resolved e) = false ->
+  pyeval (substitute resolved e) = EvInt z ->
+  eval_expressions (mkSD d lc bc inc [(key, (e, ph))]) = Some (inserted d lc bc inc ph (Leaf (SInt z))).
+Proof. exact expression_one. Qed.
+Print Assumptions C05_expression_value.
+
+Example C05_expression_value_nonvacuous :
+  let d := [(KS (of_string "x"), Lst [Leaf (SInt 5); Leaf (SInt 7)]); (KS (of_string "xa"), Leaf (SInt (-2)));
+            (KS (of_string "b"), Leaf (SStr (ph_of 3)))] in
+  let e := of_string "$x[1] * ($xa - $x[0]) + $xa" in
+  let resolved := [(of_string "$x[1]", Leaf (SInt 7)); (of_string "$xa", Leaf (SInt (-2))); (of_string "$x[0]", Leaf (SInt 5))] in
+  resolve_all (mkSD d [] [] [] [(3%N, (e, ph_of 3))]) = Some (resolved, 0%nat) /\
+  substitute resolved e = of_string "7 * (-2 - 5) + -2" /\
+  eval_expressions (mkSD d [] [] [] [(3%N, (e, ph_of 3))]) = Some (inserted d [] [] [] (ph_of 3) (Leaf (SInt (-51)))) /\
+  inserted d [] [] [] (ph_of 3) (Leaf (SInt (-51))) =
+    Ok (mkSD [(KS (of_string "x"), Lst [Leaf (SInt 5); Leaf (SInt 7)]); (KS (of_string "xa"), Leaf (SInt (-2)));
+              (KS (of_string "b"), Leaf (SInt (-51)))] [] [] [] []).
+Proof.
+  intros d e resolved.
+  assert (H1 : resolve_all (mkSD d [] [] [] [(3%N, (e, ph_of 3))]) = Some (resolved, 0%nat)) by (vm_compute; reflexivity).
+  assert (H2 : (if is_plain_reference (strip e) then rlookup (strip e) resolved else None) = None) by (vm_compute; reflexivity).
+  assert (H3 : has_char c_dollar (substitute resolved e) = false) by (vm_compute; reflexivity).
+  assert (H4 : pyeval (substitute resolved e) = EvInt (-51)) by (vm_compute; reflexivity).
+  refine (conj H1 (conj _ (conj (C05_expression_value d [] [] [] 3%N e (ph_of 3) resolved 0%nat (-51)%Z H1 H2 H3 H4) _))).
+  - vm_compute. reflexivity.
+  - vm_compute. reflexivity.
+Qed.
+
+(* ---- 4. flat documents: the reader computes the direct recursive evaluation ---------------------------------- *)
+(* [flat_sdict d]: the SDict the parser delivers for the flat document d; [denote d x]: the value of x by direct
+   recursion (depth: number of entries + 1); [total_doc d]: that recursion succeeds on every name; [fdoc_ok d]:
+   distinct names, distinct ids below 10^6, every expression has blanks-only layout, word-character references,
+   at least one reference, and is not a bare reference *)
+Theorem C05_direct_value : forall d lc bc inc, fdoc_ok d -> total_doc d = true ->
+  exists s', eval_expressions (flat_sdict d lc bc inc) = Some (Ok s') /\
+             sd_expr s' = [] /\ map fst (sd_data s') = map KS (map fst d) /\
+             (forall x v, In x (map fst d) -> denote d x = Some v -> alookup (KS x) (sd_data s') = Some (Leaf (SInt v))).
+Proof. exact direct_value. Qed.
+Print Assumptions C05_direct_value.
+
+Ltac nodup_tac :=
+  repeat (apply NoDup_cons; [cbn [In]; let H := fresh "H" in intro H; repeat (destruct H as [H|H]; [discriminate H|]); exact H|]);
+  apply NoDup_nil.
+Ltac words_tac := repeat (constructor; [word_name_tac|]); constructor.
+Ltac fexp_tac :=
+  match goal with
+  | |- fexp_ok (FInt _) => exact I
+  | |- fexp_ok (FExp _ _ _) =>
+      unfold ex_rv; cbn [fexp_ok avars app];
+      split; [reflexivity|]; split; [let i := fresh "i" in intro i; destruct i; reflexivity|];
+      split; [words_tac|]; split; [discriminate|]; let x := fresh "x" in intro x; discriminate
+  end.
+Ltac fdoc_ok_tac :=
+  split; [cbn [map fst app]; nodup_tac|];
+  split; [cbn [fexp_ids flat_map snd app]; nodup_tac|];
+  cbn [map snd app]; repeat (constructor; [fexp_tac|]); constructor.
+
+Lemma ex_doc_ok : fdoc_ok ex_doc.
+Proof. unfold ex_doc. fdoc_ok_tac. Qed.
+Lemma ex_doc_u_ok : fdoc_ok ex_doc_u.
+Proof. unfold ex_doc_u, ex_doc. fdoc_ok_tac. Qed.
+
+(* a prefix pair of names (a, ab), forward references (c refers to ab and a declared later), depth 3 (e -> c -> ab
+   -> a), a negative value that is substituted (n), two layouts *)
+Example C05_direct_value_nonvacuous :
+  fdoc_ok ex_doc /\ total_doc ex_doc = true /\
+  exists s', eval_expressions (flat_sdict ex_doc [] [] []) = Some (Ok s') /\ sd_expr s' = [] /\
+    alookup (KS (of_string "c")) (sd_data s') = Some (Leaf (SInt (-18))) /\
+    alookup (KS (of_string "a")) (sd_data s') = Some (Leaf (SInt 3)) /\
+    alookup (KS (of_string "ab")) (sd_data s') = Some (Leaf (SInt 9)) /\
+    alookup (KS (of_string "e")) (sd_data s') = Some (Leaf (SInt 9)) /\
+    alookup (KS (of_string "n")) (sd_data s') = Some (Leaf (SInt (-4))) /\
+    alookup (KS (of_string "m")) (sd_data s') = Some (Leaf (SInt 16)).
+Proof.
+  assert (Ht : total_doc ex_doc = true) by (vm_compute; reflexivity).
+  refine (conj ex_doc_ok (conj Ht _)).
+  destruct (C05_direct_value ex_doc [] [] [] ex_doc_ok Ht) as [s' [He [Hx [_ Hv]]]].
+  exists s'. split; [exact He|]. split; [exact Hx|].
+  repeat split; apply Hv; try (vm_compute; reflexivity); cbn [ex_doc map fst In]; tauto.
+Qed.
+
+(* the same holds for the text the real front end produces: parsing the file gives exactly [flat_sdict] of the document
+   (ids 0 1 2 3 in the order of appearance; the layouts reproduce the blanks of the source) *)
+Definition ex_g_in (n : nat) : nat -> str := fun i => if Nat.eqb i 0 || Nat.eqb i n then [] else [c_sp].
+Definition ex_doc_file : fdoc :=
+  [ (of_string "c", FExp 0 (ex_g_in 7) (AMul (ex_rv "ab") (APar (ASub (ex_rv "a") (ANum 5)))));
+    (of_string "a", FInt 3);
+    (of_string "ab", FExp 1 g_tight (AAdd (ex_rv "a") (AMul (ANum 2) (ex_rv "a"))));
+    (of_string "e", FExp 2 (ex_g_in 4) (ASub (ANeg (ex_rv "c")) (ex_rv "ab")));
+    (of_string "n", FInt (-4));
+    (of_string "m", FExp 3 g_tight (AMul (ex_rv "n") (ex_rv "n"))) ].
+Example C05_direct_value_reader :
+  let text := of_string "c ""$ab * ( $a - 5 )"";
+a 3;
+ab ""$a+2*$a"";
+e ""- $c - $ab"";
+n -4;
+m ""$n*$n"";
+" in
+  let fs : fsys := [(of_string "/w/root", FNative text)] in
+  (exists pr, parse_unit true (of_string "/w/root") (-1) (FNative text) = Ok pr /\
+              merge_includes fs true (pr_sd pr) (pr_count pr) = Ok (flat_sdict ex_doc_file [] [] [], 3%Z)) /\
+  exists s', read_full fs (of_string "/w/root") true (-1) = Some (Ok (s', 3%Z)) /\
+    alookup (KS (of_string "e")) (sd_data s') = Some (Leaf (SInt 9)) /\
+    alookup (KS (of_string "m")) (sd_data s') = Some (Leaf (SInt 16)).
+Proof.
+  intros text fs.
+  assert (Hok : fdoc_ok ex_doc_file).
+  { unfold ex_doc_file. split; [cbn [map fst app]; nodup_tac|].
+    split; [cbn [fexp_ids flat_map snd app]; nodup_tac|]. cbn [map snd app].
+    repeat (constructor; [first [exact I | unfold ex_rv; cbn [fexp_ok avars app]; split; [reflexivity|]; split;
+      [intro i; first [reflexivity | unfold ex_g_in; destruct (Nat.eqb i 0 || Nat.eqb i _); reflexivity]|];
+      split; [words_tac|]; split; [discriminate|]; intro x; discriminate]|]). constructor. }
+  assert (Ht : total_doc ex_doc_file = true) by (vm_compute; reflexivity).
+  destruct (parse_unit true (of_string "/w/root") (-1) (FNative text)) as [pr|er] eqn:Ep; [|vm_compute in Ep; discriminate].
+  assert (Hm : merge_includes fs true (pr_sd pr) (pr_count pr) = Ok (flat_sdict ex_doc_file [] [] [], 3%Z)).
+  { vm_compute in Ep. inversion Ep; subst pr. vm_compute. reflexivity. }
+  split; [exists pr; split; [reflexivity | exact Hm]|].
+  destruct (C05_direct_value ex_doc_file [] [] [] Hok Ht) as [s' [He [_ [_ Hv]]]].
+  exists s'. split.
+  - unfold read_full. change (fs_lookup (norm_path (of_string "/w/root")) fs) with (Some (FNative text)).
+    cbv iota beta. rewrite Ep, Hm, He. reflexivity.
+  - split; apply Hv; try (vm_compute; reflexivity); cbn [ex_doc_file map fst In]; tauto.
+Qed.
+
+(* the direct evaluation, and with it what the reader computes, is independent of the order of the declarations *)
+Theorem C05_order_independent : forall d d' lc bc inc, fdoc_ok d -> fdoc_ok d' -> Permutation d d' -> total_doc d = true ->
+  exists s s', eval_expressions (flat_sdict d lc bc inc) = Some (Ok s) /\
+               eval_expressions (flat_sdict d' lc bc inc) = Some (Ok s') /\
+               forall x, alookup (KS x) (sd_data s) = alookup (KS x) (sd_data s').
+Proof. exact order_independent. Qed.
+Print Assumptions C05_order_independent.
+
+Theorem C05_denote_order : forall d d' x, NoDup (map fst d) -> Permutation d d' -> denote d x = denote d' x.
+Proof. exact denote_perm. Qed.
+Print Assumptions C05_denote_order.
+
+(* the reversed document: every use now comes before / after its declaration the other way round *)
+Example C05_order_independent_nonvacuous :
+  let d' := rev ex_doc in
+  fdoc_ok ex_doc /\ fdoc_ok d' /\ Permutation ex_doc d' /\ total_doc ex_doc = true /\
+  map fst d' = [of_string "m"; of_string "n"; of_string "e"; of_string "ab"; of_string "a"; of_string "c"] /\
+  exists s s', eval_expressions (flat_sdict ex_doc [] [] []) = Some (Ok s) /\
+               eval_expressions (flat_sdict d' [] [] []) = Some (Ok s') /\
+               forall x, alookup (KS x) (sd_data s) = alookup (KS x) (sd_data s').
+Proof.
+  intro d'.
+  assert (Hok' : fdoc_ok d') by (unfold d', ex_doc; cbn [rev app]; fdoc_ok_tac).
+  assert (Hp : Permutation ex_doc d') by apply Permutation_rev.
+  assert (Ht : total_doc ex_doc = true) by (vm_compute; reflexivity).
+  refine (conj ex_doc_ok (conj Hok' (conj Hp (conj Ht (conj _ (C05_order_independent ex_doc d' [] [] [] ex_doc_ok Hok' Hp Ht)))))).
+  reflexivity.
+Qed.
+
+(* direct evaluation is defined on every document whose references are declared and acyclic *)
+Theorem C05_acyclic_total : forall d, NoDup (map fst d) -> forall rank, acyclic_doc d rank ->
+  forall x, In x (map fst d) -> denote d x <> None.
+Proof. exact acyclic_total. Qed.
+Print Assumptions C05_acyclic_total.
+
+Example C05_acyclic_total_nonvacuous :
+  let rank := fun x => if str_eqb x (of_string "e") then 3%nat else if str_eqb x (of_string "c") then 2%nat
+                       else if str_eqb x (of_string "ab") then 1%nat else if str_eqb x (of_string "m") then 1%nat else 0%nat in
+  NoDup (map fst ex_doc) /\ acyclic_doc ex_doc rank /\ forall x, In x (map fst ex_doc) -> denote ex_doc x <> None.
+Proof.
+  intro rank. assert (H1 : NoDup (map fst ex_doc)) by apply ex_doc_ok.
+  assert (H2 : acyclic_doc ex_doc rank).
+  { intros x i g a Hin y Hy. unfold ex_doc, ex_rv in Hin. cbn [In] in Hin.
+    repeat (destruct Hin as [Hin|Hin];
+            [inversion Hin; subst; cbn [avars app In] in Hy;
+             repeat (destruct Hy as [Hy|Hy]; [subst y; split; [cbn [ex_doc map fst In]; tauto | vm_compute; repeat constructor]|]);
+             contradiction|]).
+    contradiction. }
+  exact (conj H1 (conj H2 (C05_acyclic_total ex_doc H1 rank H2))).
+Qed.
+
+(* the general flat result: whatever cannot be evaluated is written back as its text with the references resolved by
+   then replaced ([final_data]); the values are the final ones of the direct evaluation.  [names_free]: no referenced
+   name contains the word EXPRESSION (else the write-back may not terminate, see C05_loop_raise_nonvacuous) *)
+Theorem C05_flat_result : forall d lc bc inc, fdoc_ok d -> names_free d ->
+  exists m, (forall n x v, know d n x = Some v -> know d (S (S m)) x = Some v) /\
+    eval_expressions (flat_sdict d lc bc inc) =
+    Some (Ok (mkSD (final_data (know d (S m)) (know d (S (S m))) d) lc bc inc [])).
+Proof. exact flat_result. Qed.
+Print Assumptions C05_flat_result.
+
+(* an expression that refers to undeclared names only keeps its original text, also among expressions that are
+   evaluated *)
+Theorem C05_unresolved_kept_flat : forall d lc bc inc, fdoc_ok d -> names_free d ->
+  forall x i g a, In (x, FExp i g a) d -> (forall y, In y (avars a) -> flookup y d = None) ->
+  exists s', eval_expressions (flat_sdict d lc bc inc) = Some (Ok s') /\
+             alookup (KS x) (sd_data s') = Some (Leaf (SStr (render g a))) /\ sd_expr s' = [].
+Proof. exact flat_unresolved_kept. Qed.
+Print Assumptions C05_unresolved_kept_flat.
+
+(* ex_doc, u = "$zz + $a" (zz undeclared, a = 3: the text is written back partly substituted) and
+   w = "$zz * $yy" (nothing resolvable: the original text) *)
+Definition ex_doc_w : fdoc := ex_doc_u ++ [ (of_string "w", FExp 6 g_spaced (AMul (ex_rv "zz") (ex_rv "yy"))) ].
+Lemma ex_doc_w_ok : fdoc_ok ex_doc_w.
+Proof. unfold ex_doc_w, ex_doc_u, ex_doc. fdoc_ok_tac. Qed.
+Lemma ex_doc_w_free : names_free ex_doc_w.
+Proof.
+  intros x i g a Hin. unfold ex_doc_w, ex_doc_u, ex_doc, ex_rv in Hin. cbn [app In] in Hin.
+  repeat (destruct Hin as [Hin|Hin];
+          [inversion Hin; subst; cbn [avars app]; repeat (constructor; [vm_compute; reflexivity|]); constructor|]).
+  contradiction.
+Qed.
+
+Example C05_flat_result_nonvacuous :
+  fdoc_ok ex_doc_w /\ names_free ex_doc_w /\
+  (exists s', eval_expressions (flat_sdict ex_doc_w [] [] []) = Some (Ok s') /\
+              alookup (KS (of_string "w")) (sd_data s') = Some (Leaf (SStr (of_string "$zz * $yy "))) /\ sd_expr s' = []) /\
+  eval_expressions (flat_sdict ex_doc_w [] [] []) =
+  Some (Ok (mkSD [(KS (of_string "c"), Leaf (SInt (-18))); (KS (of_string "a"), Leaf (SInt 3));
+                  (KS (of_string "ab"), Leaf (SInt 9)); (KS (of_string "e"), Leaf (SInt 9));
+                  (KS (of_string "n"), Leaf (SInt (-4))); (KS (of_string "m"), Leaf (SInt 16));
+                  (KS (of_string "u"), Leaf (SStr (of_string "$zz + 3 ")));
+                  (KS (of_string "w"), Leaf (SStr (of_string "$zz * $yy ")))] [] [] [] [])).
+Proof.
+  refine (conj ex_doc_w_ok (conj ex_doc_w_free (conj _ _))).
+  - assert (Hin : In (of_string "w", FExp 6 g_spaced (AMul (ex_rv "zz") (ex_rv "yy"))) ex_doc_w).
+    { unfold ex_doc_w. apply in_or_app. right. left. reflexivity. }
+    assert (Hu : forall y, In y (avars (AMul (ex_rv "zz") (ex_rv "yy"))) -> flookup y ex_doc_w = None).
+    { intros y Hy. cbn [ex_rv avars app In] in Hy. destruct Hy as [Hy|[Hy|[]]]; subst y; vm_compute; reflexivity. }
+    destruct (C05_unresolved_kept_flat ex_doc_w [] [] [] ex_doc_w_ok ex_doc_w_free _ _ _ _ Hin Hu) as [s' [He [Ha Hx]]].
+    exists s'. split; [exact He|]. split; [|exact Hx]. rewrite Ha. vm_compute. reflexivity.
+  - vm_compute. reflexivity.
+Qed.
+
+(* ... and so does one whose references never get a value: undeclared, self- or mutually referential names *)
+Theorem C05_cyclic_kept_flat : forall d lc bc inc, fdoc_ok d -> names_free d ->
+  forall x i g a, In (x, FExp i g a) d -> (forall y, In y (avars a) -> forall n, know d n y = None) ->
+  exists s', eval_expressions (flat_sdict d lc bc inc) = Some (Ok s') /\
+             alookup (KS x) (sd_data s') = Some (Leaf (SStr (render g a))) /\ sd_expr s' = [].
+Proof. exact flat_never_known_kept. Qed.
+Print Assumptions C05_cyclic_kept_flat.
+
+(* a = 3   p = "$q + $a"   q = "$p*2"   s = "$s + 1"   r = "$a * $a" : p and q refer to each other, s to itself; reading
+   terminates, r is evaluated, q and s keep their text, p is written back with the one resolvable reference replaced *)
+Definition ex_doc_cyc : fdoc :=
+  [ (of_string "a", FInt 3);
+    (of_string "p", FExp 1 g_spaced (AAdd (ex_rv "q") (ex_rv "a")));
+    (of_string "q", FExp 2 g_tight (AMul (ex_rv "p") (ANum 2)));
+    (of_string "s", FExp 3 g_spaced (AAdd (ex_rv "s") (ANum 1)));
+    (of_string "r", FExp 4 g_spaced (AMul (ex_rv "a") (ex_rv "a"))) ].
+
+Example C05_cyclic_kept_flat_nonvacuous :
+  fdoc_ok ex_doc_cyc /\ names_free ex_doc_cyc /\
+  (forall n, know ex_doc_cyc n (of_string "p") = None /\ know ex_doc_cyc n (of_string "q") = None /\
+             know ex_doc_cyc n (of_string "s") = None) /\
+  (exists s', eval_expressions (flat_sdict ex_doc_cyc [] [] []) = Some (Ok s') /\
+              alookup (KS (of_string "q")) (sd_data s') = Some (Leaf (SStr (of_string "$p*2"))) /\ sd_expr s' = []) /\
+  (exists s', eval_expressions (flat_sdict ex_doc_cyc [] [] []) = Some (Ok s') /\
+              alookup (KS (of_string "s")) (sd_data s') = Some (Leaf (SStr (of_string "$s + 1 "))) /\ sd_expr s' = []) /\
+  eval_expressions (flat_sdict ex_doc_cyc [] [] []) =
+  Some (Ok (mkSD [(KS (of_string "a"), Leaf (SInt 3)); (KS (of_string "p"), Leaf (SStr (of_string "$q + 3 ")));
+                  (KS (of_string "q"), Leaf (SStr (of_string "$p*2"))); (KS (of_string "s"), Leaf (SStr (of_string "$s + 1 ")));
+                  (KS (of_string "r"), Leaf (SInt 9))] [] [] [] [])).
+Proof.
+  assert (Hok : fdoc_ok ex_doc_cyc) by (unfold ex_doc_cyc; fdoc_ok_tac).
+  assert (Hfree : names_free ex_doc_cyc).
+  { intros x i g a Hin. unfold ex_doc_cyc, ex_rv in Hin. cbn [In] in Hin.
+    repeat (destruct Hin as [Hin|Hin];
+            [inversion Hin; subst; cbn [avars app]; repeat (constructor; [vm_compute; reflexivity|]); constructor|]).
+    contradiction. }
+  assert (Hn : forall n, know ex_doc_cyc n (of_string "p") = None /\ know ex_doc_cyc n (of_string "q") = None /\
+                         know ex_doc_cyc n (of_string "s") = None).
+  { induction n as [|n [IHp [IHq IHs]]]; [repeat split; reflexivity|].
+    repeat split; cbn [know]; unfold kstep.
+    - change (flookup (of_string "p") ex_doc_cyc) with (Some (FExp 1 g_spaced (AAdd (ex_rv "q") (ex_rv "a")))).
+      unfold eval_in, known_all. cbn [ex_rv avars app forallb]. rewrite IHq. reflexivity.
+    - change (flookup (of_string "q") ex_doc_cyc) with (Some (FExp 2 g_tight (AMul (ex_rv "p") (ANum 2)))).
+      unfold eval_in, known_all. cbn [ex_rv avars app forallb]. rewrite IHp. reflexivity.
+    - change (flookup (of_string "s") ex_doc_cyc) with (Some (FExp 3 g_spaced (AAdd (ex_rv "s") (ANum 1)))).
+      unfold eval_in, known_all. cbn [ex_rv avars app forallb]. rewrite IHs. reflexivity. }
+  refine (conj Hok (conj Hfree (conj Hn (conj _ (conj _ _))))).
+  - assert (Hin : In (of_string "q", FExp 2 g_tight (AMul (ex_rv "p") (ANum 2))) ex_doc_cyc) by (cbn; tauto).
+    destruct (C05_cyclic_kept_flat ex_doc_cyc [] [] [] Hok Hfree _ _ _ _ Hin) as [s' [He [Ha Hx]]].
+    + intros y Hy n. cbn [ex_rv avars app In] in Hy. destruct Hy as [Hy|[]]. subst y. apply Hn.
+    + exists s'. split; [exact He|]. split; [|exact Hx]. rewrite Ha. vm_compute. reflexivity.
+  - assert (Hin : In (of_string "s", FExp 3 g_spaced (AAdd (ex_rv "s") (ANum 1))) ex_doc_cyc) by (cbn; tauto).
+    destruct (C05_cyclic_kept_flat ex_doc_cyc [] [] [] Hok Hfree _ _ _ _ Hin) as [s' [He [Ha Hx]]].
+    + intros y Hy n. cbn [ex_rv avars app In] in Hy. destruct Hy as [Hy|[]]. subst y. apply Hn.
+    + exists s'. split; [exact He|]. split; [|exact Hx]. rewrite Ha. vm_compute. reflexivity.
+  - vm_compute. reflexivity.
+Qed.
+
+(* [peG] with no extra inner fuel is the parser of the model *)
+Theorem C05_peG_is_pe : forall f lvl ts, peG 0 f lvl ts = pe f lvl ts.
+Proof. exact peG_0. Qed.
+Print Assumptions C05_peG_is_pe.
+
+(* bare references ("$b", excluded by fexp_ok: the resolver follows them at once, which the proof's description of the
+   intermediate states does not cover) -- on this instance the result is the direct evaluation all the same:
+   z = "$b2 * 2"  b2 = "$b"  b = "$a"  a = "$c + 1"  c = 2  y = " $z " *)
+Example C05_bare_reference_instance :
+  let d := [ (of_string "z", FExp 1 g_spaced (AMul (ex_rv "b2") (ANum 2)));
+             (of_string "b2", FExp 2 g_tight (ex_rv "b"));
+             (of_string "b", FExp 3 g_tight (ex_rv "a"));
+             (of_string "a", FExp 4 g_spaced (AAdd (ex_rv "c") (ANum 1)));
+             (of_string "c", FInt 2);
+             (of_string "y", FExp 5 g_spaced (ex_rv "z")) ] in
+  eval_expressions (flat_sdict d [] [] []) =
+  Some (Ok (mkSD (map (fun xv => (KS (fst xv), Leaf (SInt (match denote d (fst xv) with Some v => v | None => 0%Z end)))) d)
+                 [] [] [] [])) /\
+  map (fun xv => denote d (fst xv)) d = [Some 6%Z; Some 3%Z; Some 3%Z; Some 3%Z; Some 2%Z; Some 6%Z].
+Proof. vm_compute. split; reflexivity. Qed.
